@@ -61,7 +61,7 @@ func (m Model) Keys() []string {
 // Options of the reference evaluator.
 type Options struct {
 	MaxFacts int // cap on the model size (default 5000); exceeding it makes the result inconclusive
-	MaxSteps int // cap on the number of literal evaluations (default 2e6)
+	MaxSteps int // cap on the number of literal evaluations plus facts scanned (default 6e6)
 }
 
 // Result of the reference evaluation.
@@ -268,6 +268,15 @@ func (ev *evaluator) numbers(l Lit, e env) (int64, int64) {
 }
 
 // solve enumerates the solutions of the body literals not yet done.
+// work accounts for n units of scanning (facts tried against an atom) against the step cap.
+func (ev *evaluator) work(n int) {
+	ev.steps += n
+	if ev.steps > ev.opts.MaxSteps {
+		ev.res.Capped = true
+		panic(stop{})
+	}
+}
+
 func (ev *evaluator) solve(rule string, lits []Lit, done []bool, e env, emit func(env)) {
 	pick := -1
 	remaining := false
@@ -309,6 +318,7 @@ func (ev *evaluator) solve(rule string, lits []Lit, done []bool, e env, emit fun
 		}
 		facts := ev.byPred[predKey(l.Atom.Pred, len(l.Atom.Args))]
 		n := len(facts) // facts appended during iteration are picked up by the next naive round
+		ev.work(n)
 		for i := 0; i < n; i++ {
 			if ne, ok := ev.matchArgs(l.Atom.Args, facts[i].Args, e); ok {
 				ev.solve(rule, lits, nd, ne, emit)
@@ -321,6 +331,7 @@ func (ev *evaluator) solve(rule string, lits []Lit, done []bool, e env, emit fun
 			}
 			return
 		}
+		ev.work(len(ev.byPred[predKey(l.Atom.Pred, len(l.Atom.Args))]))
 		for _, f := range ev.byPred[predKey(l.Atom.Pred, len(l.Atom.Args))] {
 			if _, ok := ev.matchArgs(l.Atom.Args, f.Args, e); ok {
 				return // the negated atom holds for some fact: no solution
@@ -646,7 +657,7 @@ func Eval(p Program, extra []Fact, opts Options) (res Result) {
 		opts.MaxFacts = 5000
 	}
 	if opts.MaxSteps == 0 {
-		opts.MaxSteps = 2000000
+		opts.MaxSteps = 6000000
 	}
 	res.Rounds = map[string]int{}
 	ev := &evaluator{opts: opts, model: Model{}, byPred: map[string][]Fact{}, res: &res}
